@@ -182,9 +182,9 @@ DEV_SITES = {"DEV_GcReadsLabelValuesUnlocked": {"Store.Gc", "Metric.RemoveOldest
 
 
 def atomic_stage(ctx, binary):
-    ncases = 6 if ctx.thorough else 2
-    incs = 60 if ctx.thorough else 25
-    exports = 20 if ctx.thorough else 8        # per exporter and trace
+    ncases = 4 if ctx.thorough else 2
+    incs = 40 if ctx.thorough else 25
+    exports = 10 if ctx.thorough else 8        # per exporter and trace (the hidden instants multiply TLC's states)
     gs = [["vm", "vm2", "prom", "varz", "json", "gc", "reload"], ["vm", "vm2", "prom", "json"]]
     cases = [{"group": gs[k % len(gs)], "incs": incs, "iters": exports} for k in range(ncases)]
     # two VMs hammering one datum: only totals are logged (no increment may be lost)
